@@ -2,7 +2,7 @@ package main
 
 func init() {
 	propExtras["C08"] = func(cc *CheckCtx) {
-		cc.runBounded(BoundedSpec{Name: "frontend-total", PkgDir: "parser", File: "c08_parser_test.go", Test: "TestVerifBoundedFrontEndTotal", TimeoutS: 300,
+		cc.runBounded(BoundedSpec{Name: "frontend-total", PkgDir: "parser", File: "c08_parser_test.go", Test: "TestVerifBoundedFrontEndTotal", TimeoutS: 900,
 			Contract: "ParseProgram/PrettyPrint totality: no panic; errors, continuation or a printable tree, in file and line mode"})
 		cc.auditDynLike()
 		cc.Assume = append(cc.Assume,
